@@ -19,6 +19,13 @@ mod hints;
 pub mod replay;
 pub mod trace;
 
+/// Verification hooks (guard: `--cfg trustfall_verif`). Add-only; not part of the public API.
+#[cfg(trustfall_verif)]
+pub mod __verif {
+    pub use super::filtering::__verif as filtering;
+    pub use super::hints::__verif as hints;
+}
+
 pub use hints::{
     CandidateValue, DynamicallyResolvedValue, EdgeInfo, NeighborInfo, QueryInfo, Range,
     RequiredProperty, ResolveEdgeInfo, ResolveInfo, VertexInfo,
